@@ -831,7 +831,10 @@ func (k *kctx) upsample(width int, class string, bottom, alpha bool) {
 	if !bottom {
 		botY, aB = nil, nil
 	}
-	replay := map[string]any{"kernel": "UpsampleLinePairNRGBA", "width": width, "topY": topY, "botY": botY, "topU": topU, "topV": topV, "botU": botU, "botV": botV, "alpha": alpha}
+	replay := map[string]any{"kernel": "UpsampleLinePairNRGBA", "width": width, "class": class, "bottom": bottom, "alpha": alpha}
+	if width <= 128 {
+		replay = map[string]any{"kernel": "UpsampleLinePairNRGBA", "width": width, "topY": topY, "botY": botY, "topU": topU, "topV": topV, "botU": botU, "botV": botV, "alpha": alpha}
+	}
 	run := func(v *webp.VerifArchKernels) (t, b []byte) {
 		t = make([]byte, width*4)
 		if bottom {
@@ -1067,6 +1070,19 @@ func kernels(c *Ctx) {
 				k.upsample(w, cl, true, false)
 				k.upsample(w, cl, rep%2 == 0, true)
 				k.upsample(w, cl, false, false)
+			}
+		}
+	}
+	// wide rows: around every batch size and scratch threshold of the amd64 wrappers
+	// (8/4-pixel batches; 2048-entry packed-UV stack scratch per row pair => widths
+	// 1024/1025 and 2048/2049 switch stack <-> heap), plus powers of two beyond
+	wide := []int{8, 16, 32, 255, 256, 257, 1023, 1024, 1025, 1536, 2047, 2048, 2049, 4095, 4096, 4097, 16383}
+	for rep := 0; rep < 1+scale/8; rep++ {
+		for _, w := range wide {
+			for _, cl := range []string{"rand", "extreme"} {
+				k.upsample(w, cl, true, rep%2 == 0)
+				k.upsample(w, cl, false, rep%2 == 1)
+				k.green(w, cl)
 			}
 		}
 	}
